@@ -30,7 +30,8 @@ func work() string {
 		d, err := os.MkdirTemp("", "protocheck-")
 		if err != nil {
 			fmt.Fprintln(os.Stderr, "protocheck:", err)
-			os.Exit(3)
+			cleanupAll()
+		os.Exit(3)
 		}
 		workDir = d
 	})
@@ -72,7 +73,8 @@ func thriftrw() string {
 		cmd.Env = goEnv("CGO_ENABLED=0")
 		if outp, err := cmd.CombinedOutput(); err != nil {
 			fmt.Fprintf(os.Stderr, "protocheck: building thriftrw from %s failed: %v\n%s\n", repoRoot(), err, outp)
-			os.Exit(3)
+			cleanupAll()
+		os.Exit(3)
 		}
 		thriftrwBin = bin
 	})
